@@ -22,7 +22,7 @@ func checkC10(c *Ctx) {
 	c.Rule("R10.1", "user String()/Error() on field payloads only under a deferred closure that itself recovers", 4)
 	c.Rule("R10.2", "marshaler failures become '<key>Error'; no encoder/marshaler error dropped", 15)
 	c.Rule("R10.3", "output stays well-formed on failure: closers on the error path; reflected value encoded before any write", 12)
-	c.Rule("R10.4", "all cores, all sinks, all errors: exhaustive loops folding errors; aggregate reported; sink error returned", 12)
+	c.Rule("R10.4", "all cores, all sinks, all errors: exhaustive loops folding errors; aggregate reported; sink error returned", 9)
 	c.Rule("R10.5", "the logger's error output is threaded into every entry that will be written", 1)
 
 	// ---------------- R10.1 ----------------
